@@ -4,7 +4,8 @@ CONSTANTS
   Times <- TimesD
   Curves <- CurvesD
   MaxSeg = 3
-  QTicks = {0, 24, 48, 65, 88, 200}
+  MaxPts = 2
+  QTicks = {0, 24, 48, 88, 200}
 INVARIANT FormatWellFormed
 INVARIANT NodesEncoded
 INVARIANT WrapLaw
